@@ -42,8 +42,11 @@ Print Assumptions C08_factor_code_writer_encoding.
     see C08_old_code_refuted_* below.
     Schemas with by-name references (recursive types included) are covered by C08_factor_zone_refs_partial below,
     with the same conditions followed through the named-type tables to the depth of the value.
-    MISSING for full strength: logicalType annotations on non-primitive types, nested unions, reader options
-    (return_record_name ...) - for those C08_factor_code (all inputs) and the correspondence check stand. *)
+    All zone theorems, the identity and the error lemmas hold for ANY reader options [o] (return_record_name,
+    return_named_type and their _override variants): the specification [resolve o] pairs the value read from a writer
+    union with the name the reader calls its type by ([wrap_spec]), and the code's wrapping is proved equal to it.
+    MISSING for full strength: logicalType annotations on non-primitive types, nested unions - for those
+    C08_factor_code (all inputs) and the correspondence check stand. *)
 Theorem C08_factor_zone_partial : forall o, forall n we w a, typedn n we w a ->
   forall re r f x, (n <= f)%nat -> inline w = true -> inline r = true -> agree we re w r = true ->
   rdec f we re o w (Some r) (wire a ++ x)%list = lift x (resolve o we re w r a).
